@@ -20,13 +20,37 @@ let yields_str (ys : (msg * n) list) : string =
   if ys = [] then "OK -"
   else "OK " ^ String.concat " ; " (List.map (fun (m, a) -> Wire.msg_str m ^ "@" ^ n_to_hex a) ys)
 
+(* the harness sets the stop flag again once after the first stop (a stop request in the script, or its
+   end) and reads on: what follows a stop request is read by a cursor that starts afresh (CursorFacts.run_spec
+   holds from every fresh cursor, whatever its buffer holds) *)
+let rec split_at_stop (evs : ev list) : ev list * ev list option =
+  match evs with
+  | [] -> ([], None)
+  | StopReq :: r -> ([StopReq], Some r)
+  | e :: r -> let (a, b) = split_at_stop r in (e :: a, b)
+
+let resumed_str (first : (msg * n) list) (second : (msg * n) list) : string =
+  let item pre (m, a) = pre ^ Wire.msg_str m ^ "@" ^ n_to_hex a in
+  let all = Stdlib.List.map (item "") first @ Stdlib.List.map (item "R:") second in
+  if all = [] then "OK -" else "OK " ^ String.concat " ; " all
+
 let cmd_cursor (param : string) (arg : string) (impl : string) : string * string =
   let bufsize = nat_of_int (int_of_string param) in
   let evs = parse_events arg in
-  let mr = match run_script bufsize evs with
-    | Panic -> "PANIC" | Err -> "OUT-OF-FUEL" | Ok ys -> yields_str ys in
+  let (pre, rest) = split_at_stop evs in
+  (* a run that an undecodable datagram ended did not stop: nothing is resumed *)
+  let stopped_normally ys = (Stdlib.List.length ys = Stdlib.List.length (spec_run bufsize pre)) in
+  let mr = match run_script bufsize pre with
+    | Panic -> "PANIC" | Err -> "OUT-OF-FUEL"
+    | Ok ys ->
+      (match rest with
+       | Some r when stopped_normally ys -> (match run_script bufsize r with Ok ys2 -> resumed_str ys ys2 | Panic -> "PANIC" | Err -> "OUT-OF-FUEL")
+       | _ -> resumed_str ys []) in
+  let spec = match rest with
+    | Some r -> resumed_str (spec_run bufsize pre) (spec_run bufsize r)
+    | None -> resumed_str (spec_run bufsize pre) [] in
   let verdict =
     if impl = "" then "-"
-    else if impl = yields_str (spec_run bufsize evs) then "ok"
+    else if impl = spec then "ok"
     else "FAIL:yield-is-not-a-function-of-its-own-datagram" in
   (mr, verdict)
